@@ -484,9 +484,11 @@ def check(ctx: Ctx, col: Collector, tier: str) -> None:
                 if site.bound >= site.need:
                     col.ok("C01.PARTIAL-OPS", key, repo.loc(rel, site.node), f"len >= {site.bound} >= {site.need}: {site.reason}")
                     continue
-                inv = LENGTH_INVARIANTS.get((rel, fi.qualname, site.base))
+                invs = LENGTH_INVARIANTS.get((rel, fi.qualname, site.base))
+                invs = [invs] if isinstance(invs, tuple) else (invs or [])
+                inv = next((x for x in invs if x[0] == site.need), None) or next((x for x in invs if x[0] >= site.need), None)
                 if inv and inv[0] >= site.need:
-                    ok_inv, why = check_invariant(ctx, inv[1])
+                    ok_inv, why = check_invariant(ctx, inv[1], la, site)
                     if ok_inv:
                         col.ok("C01.PARTIAL-OPS", key, repo.loc(rel, site.node), f"len >= {inv[0]}: {why}")
                         continue
@@ -639,7 +641,7 @@ LENGTH_INVARIANTS = {
     (VISITOR, f"{VCLS}._parse_parameter_data", "self.__declaration_stack"): (1, "stack"),
     (VISITOR, f"{VCLS}.mypy_type_to_abstract_type", "self.__declaration_stack"): (1, "stack"),
     (VISITOR, f"{VCLS}._find_alias", "self.__declaration_stack"): (1, "stack"),
-    (VISITOR, f"{VCLS}._is_public", "self.__declaration_stack"): (1, "stack"),
+    (VISITOR, f"{VCLS}._is_public", "self.__declaration_stack"): [(1, "stack"), (2, "stack-top-is-declaration")],
     (VISITOR, f"{VCLS}.mypy_type_to_abstract_type", "mypy_type.args"): (2, "lib:Instance.args of dict/Mapping: mypy fills omitted type arguments with Any, so both arguments are present"),
     (DOCPARSER, "DocstringParser.get_result_documentation", "all_returns.value"): (1, "lib:a returns section produced by griffe holds at least one entry"),
     (WALKER, "ASTWalker.__walk", "node.items"): (1, "lib:OverloadedFuncDef.items is never empty (mypy builds the node from at least one decorated definition)"),
@@ -651,10 +653,29 @@ LENGTH_INVARIANTS = {
 }
 
 
-def check_invariant(ctx: Ctx, inv: str) -> tuple[bool, str]:
+def check_invariant(ctx: Ctx, inv: str, la=None, site=None) -> tuple[bool, str]:
     repo = ctx.repo
     if inv.startswith("lib:"):
         return True, "library fact: " + inv[4:]
+    if inv == "stack-top-is-declaration":
+        # the subscript is evaluated only when the top of the stack is a Function / Class / Enum: the Module pushed by
+        # enter_moduledef lies below it, so the stack holds at least two elements
+        ok0, why0 = check_invariant(ctx, "stack")
+        if not ok0:
+            return ok0, why0
+        for cond, truth, _line in la.dominating(site.node):
+            if truth and isinstance(cond, ast.Call) and getattr(cond.func, "id", "") == "isinstance" and len(cond.args) == 2:
+                subj = la.norm(cond.args[0])
+                if isinstance(cond.args[0], ast.Name) and subj == cond.args[0].id:
+                    # a local that is assigned more than once: the definition that reaches the test is the only one above it (no loop around)
+                    prior = [x for x in ast.walk(la.fn) if isinstance(x, ast.Assign) and x.lineno < cond.lineno and any(isinstance(t, ast.Name) and t.id == subj for t in x.targets)]
+                    in_loop = any(isinstance(x, (ast.For, ast.While)) and x.lineno <= cond.lineno <= (x.end_lineno or 0) for x in ast.walk(la.fn))
+                    if len(prior) == 1 and not in_loop:
+                        subj = la.norm(prior[0].value)
+                classes = {x.id for x in ast.walk(cond.args[1]) if isinstance(x, ast.Name)}
+                if subj == f"{STACK}[-1]" and classes and classes <= {"Function", "Class", "Enum"}:
+                    return True, f"declaration stack: dominated by `{ast.unparse(cond)}` on the top element; the Module pushed by enter_moduledef lies below it"
+        return False, "the subscript is not dominated by a test that the top of the declaration stack is a Function / Class / Enum"
     if inv in ("stack", "stack-below-class"):
         # enter_moduledef pushes the Module unconditionally as its last statement; all other handlers run below it
         fi = repo.function(VISITOR, f"{VCLS}.enter_moduledef")
